@@ -6,8 +6,8 @@ Local Open Scope nat_scope.
 
 Ltac rst := cbn [write read1 read2 slots wpc rpc nw n1 n2 wseq rseq recv
                  set_slots set_slot set_counts set_wpc set_rpc add_recv
-                 mark payload slept rlock tk parked1 woken1 bc wt wparked wwoken fillseq
-                 sl_lists sl_fill sl_mark sl_writer sl_rlock] in *.
+                 mark payload pm c_one c_multi c_resps slept rlock tk parked1 woken1 bc wt wparked wwoken fillseq
+                 sl_lists sl_fill sl_mark sl_clear sl_writer sl_rlock] in *.
 
 Definition reachable (k : nat) (start : N) (st : state) : Prop := exists sch, run k sch (init start) = Some st.
 
@@ -168,17 +168,17 @@ Proof. intros st Hr. destruct (inv_reachable _ _ _ Hr) as [A _ _]. apply (a_recv
 (** the reader holds the slot mutex from NextResultCh to FinishResult: no putter can touch the slot,
     and while a result is undelivered nobody else can occupy the slot *)
 Theorem ring_lock_tenure : forall st s it, reachable k start st -> rpc st = RHold s it ->
-  forall p, lstep k st (PutLock p s) = None.
+  forall p m, lstep k st (PutLock p s m) = None.
 Proof.
-  intros st s it Hr Hrp p. destruct (inv_reachable _ _ _ Hr) as [A _ _].
+  intros st s it Hr Hrp p m. destruct (inv_reachable _ _ _ Hr) as [A _ _].
   assert (H : rlock (slots st s) = true) by (apply (a_lock _ _ _ A); eexists; exact Hrp).
   cbn [lstep]. rewrite H. reflexivity.
 Qed.
 
-Theorem ring_slot_owner : forall st s i p st', reachable k start st -> und st s = Some i ->
-  lstep k st (PutLock p s) = Some st' -> fillseq (slots st' s) = fillseq (slots st s) /\ und st' s = Some i.
+Theorem ring_slot_owner : forall st s i p m st', reachable k start st -> und st s = Some i ->
+  lstep k st (PutLock p s m) = Some st' -> fillseq (slots st' s) = fillseq (slots st s) /\ und st' s = Some i.
 Proof.
-  intros st s i p st' Hr Hu Hl. destruct (inv_reachable _ _ _ Hr) as [A _ _].
+  intros st s i p m st' Hr Hu Hl. destruct (inv_reachable _ _ _ Hr) as [A _ _].
   cbn [lstep] in Hl.
   destruct (negb (rlock (slots st s)) && (memb p (tk (slots st s)) || memb p (woken1 (slots st s)))) eqn:G; [|discriminate].
   apply andb_true_iff in G. destruct G as [G1 _]. apply negb_true_iff in G1.
